@@ -1,7 +1,29 @@
 (** Pins for C12: the statements written out, so that no theorem is weakened quietly. *)
 From TucModel Require Import Base.Bytes Base.ListX Model.Bounds Model.Scan Model.Opt Model.CutBytes
-     Model.CutStr Model.FastLane Spec.Resolve Proofs.BoundsFacts Proofs.C06 Proofs.ScanSplit Proofs.C02 Proofs.C12 Properties.C12.
+     Model.CutStr Model.FastLane Spec.Resolve Proofs.BoundsFacts Proofs.C06 Proofs.ScanSplit Proofs.C02 Proofs.C12 Model.Stream Model.Args Model.Main Proofs.C04 Proofs.C12Total Properties.C12.
 
+
+Check C12_every_invocation_ends_with_status_0_or_1 :
+  forall (argv : args) (input : bytes), mres_ok (run_main argv input).
+Print Assumptions C12_every_invocation_ends_with_status_0_or_1.
+
+Check C12_every_option_set_terminates :
+  forall (o : opt) (input : bytes), parsed_opt o -> mres_ok (run_opt o input).
+Print Assumptions C12_every_option_set_terminates.
+
+Check C12_parse_args_builds_well_formed_options :
+  forall (argv : args) (o : opt), parse_args argv = POpt o -> parsed_opt o.
+Print Assumptions C12_parse_args_builds_well_formed_options.
+
+Check C12_general_path_record :
+  forall (o : opt) (line0 : bytes), bounds_ok o -> rx_consistent o ->
+    match cut_str o line0 with Some r => rres_ok r | None => True end.
+Print Assumptions C12_general_path_record.
+
+Check C12_fixed_memory_terminates :
+  forall (so : sopt) (input : bytes), no_adjacent_fillers (s_items so) ->
+    outcome_ok (run_stream_whole so input).
+Print Assumptions C12_fixed_memory_terminates.
 
 Check C12_literal_matches_are_well_formed :
   forall d line : bytes, wf_ms 0 (lit_matches d line) (length line).
